@@ -123,7 +123,10 @@ def make_case(seed, shard_index, i):
         if rv.random() < 0.5:
             extra["tpf_variant"] = "gap-method-column"
             labels.add("null:tpf-gap-method-column")
-    elif via == "agp" and rv.random() < 0.6:
+    if via and float(t).is_integer() and rv.random() < 0.5:
+        extra["texel_header_plain"] = True
+        labels.add("null:texel-resolution-without-decimals")
+    if via == "agp" and rv.random() < 0.6:
         extra["agp_variant"] = rv.choice(["v1.1-gaps", "component-types", "known-length-gaps"])
         labels.add(f"null:agp-{extra['agp_variant']}")
     return {"kind": "remap", "gen": "null", "t": t, "input": inp, "pretext": pt, "pieces": pieces, "prefix": prefix,
@@ -221,6 +224,55 @@ def run(shard, ctx):
         oracle(case, workloads.run_case(case), ctx)
         if i % 25 == 0:
             check_cli(case, ctx, Path(os.environ.get("VERIF_SHARD_SCRATCH", ".")) / "cli")
+        if i % 10 == 7 and "in:fasta" in case["labels"] and sum(scaffold_len(s_) for s_ in case["input"]) < 150_000:
+            check_cli_fasta(case, ctx, Path(os.environ.get("VERIF_SHARD_SCRATCH", ".")) / "clifa")
+
+
+def check_cli_fasta(case, ctx, scratch):
+    """The null map through the CLI with the input given as FASTA (LF or CRLF) and FASTA output, twice: the second
+    run finds the index cache of the first beside the FASTA.  Each time the output holds the input's sequences
+    (record-terminal N runs aside, cf. the assumptions)."""
+    import shutil
+
+    from vf import cli_runs
+    from vf.gen import pv as gpv
+    from vf.ref import fasta_ref
+
+    d = Path(scratch)
+    if d.exists():
+        shutil.rmtree(d)
+    d.mkdir(parents=True)
+    rng = rng_for(case["id"][0], "c08fa", case["id"][1], case["id"][2])
+    crlf = rng.random() < 0.5
+    fa = cli_runs.fasta_bytes_for(rng, case["input"], crlf=crlf)
+    (d / "input.fa").write_bytes(fa)
+    now = (d / "input.fa").stat().st_mtime
+    os.utime(d / "input.fa", (now - 1000, now - 1000))
+    (d / "pretext.agp").write_text(gpv.pretext_agp_text(case["pretext"], case["t"]))
+    cr = {"dir": d, "assembly_file": d / "input.fa", "pretext_file": d / "pretext.agp", "prefix": case["prefix"], "t": case["t"], "input": case["input"],
+          "pretext": case["pretext"], "labels": case["labels"]}
+    want = sorted(r["seq"].strip(b"N") for r in fasta_ref.parse(fa))
+    try:
+        for which in ("cold-cache", "warm-cache"):
+            ctx.case()
+            cli_runs.clear_outputs(cr)
+            res = cli_runs.run_pretext_to_asm(cr, out_name="out.fa")
+            rc = {**cli_runs.case_of(cr), "painted": case["painted"], "hapnames": case["hapnames"], "fasta_leg": which}
+            if res["exit_code"] != 0:
+                ctx.violation("cli-null-map-failed:fasta-input", f"{which}: exit {res['exit_code']}: {res['exception']!r} {res['stderr'][-300:]}", rc)
+                return
+            outs = sorted(n for n in cli_runs.output_files(cr) if n.endswith(".fa"))
+            if len(outs) != 1:
+                ctx.violation("cli-other-output-assembly-produced:fasta-input", f"{which}: {outs}", rc)
+                return
+            got = sorted(seq for _, seq, _ in fasta_ref.split_records((d / outs[0]).read_bytes()))
+            if got != want:
+                k = next((j for j in range(min(len(got), len(want))) if got[j] != want[j]), min(len(got), len(want)))
+                ctx.violation(f"cli-sequence-differs-from-input-fasta:{which}", f"{len(got)} records vs {len(want)}; first difference: got {got[k][:80] if k < len(got) else None!r} want {want[k][:80] if k < len(want) else None!r}", rc)
+                return
+            ctx.count(f"cli-null-fasta-ok:{which}" + (":crlf" if crlf else ""))
+    finally:
+        shutil.rmtree(d, ignore_errors=True)
 
 
 def check_cli(case, ctx, scratch):
@@ -331,5 +383,8 @@ def gates(c, tier):
         "label:null:input-through-tpf-text": 1000,
         "label:null:tpf-gap-method-column": 500,
         "label:null:agp-known-length-gaps": 300,
+        "label:null:texel-resolution-without-decimals": 300,
+        "cli-null-fasta-ok:warm-cache": 100,
+        "cli-null-fasta-ok:warm-cache:crlf": 30,
     }
     return [f"{k}>={v} (got {c.get(k, 0)})" for k, v in need.items() if c.get(k, 0) < v]
